@@ -789,50 +789,70 @@ Definition own (i : nat) (l : list (nat * bytes)) : list bytes :=
 (* ------------------------------------------------------------------ *)
 (* both directions of a relayed stream, with half-close.  Either side writes chunks and
    then ends its direction (FIN / SSH_MSG_CHANNEL_EOF); the other direction may still have
-   data to deliver.  A relay is characterised by which end-of-direction makes it stop
-   altogether (closing both sides and dropping what the other direction still carries):
-     copy (stream): the goroutine client->backend forwards the client's end to the backend
-                    (CloseWrite) and goes on; Handle returns when backend->client ends
-     ssh-proxy:     each copyFn closes its destination channel when its source ends *)
+   data to deliver.  The end of one direction is passed on to the other side as such; a
+   relay is characterised by when it stops altogether (closing both sides):
+     copy (stream):  when BOTH directions have ended (the goroutine client->backend does
+                     CloseWrite on the backend connection, Handle does CloseWrite on the
+                     client connection and waits for that goroutine)
+     ssh-proxy:      when the backend's direction ends (the client's EOF is forwarded with
+                     CloseWrite; the session ends with the backend's output)
+     copy over a connection that cannot half-close: as ssh-proxy *)
 Inductive dev :=
 | DC (c : bytes)        (* the client writes c *)
 | DCEof                 (* the client ends its direction (half-close) *)
 | DB (c : bytes)        (* the backend writes c *)
 | DBEof.                (* the backend ends its direction *)
 
+Inductive policy := StopBoth | StopOnBackend.
+
+Definition stops_now (p : policy) (cdone bdone : bool) : bool :=
+  match p with StopBoth => cdone && bdone | StopOnBackend => bdone end.
+
 Record dstate := mkDst {
   d_alive : bool;       (* the relay is still running *)
   d_up : bytes;         (* what the backend has received *)
   d_down : bytes;       (* what the client has received *)
-  d_beof : bool;        (* the backend has seen the end of the client's direction (or the connection closed) *)
-  d_ceof : bool }.      (* the client has seen the end of the backend's direction (or the connection closed) *)
+  d_cdone : bool;       (* the client has ended its direction *)
+  d_bdone : bool }.     (* the backend has ended its direction *)
 
-Definition dstep (stop_on_c stop_on_b : bool) (s : dstate) (e : dev) : dstate :=
+(* what each side can tell: the other's end of direction was passed on, or everything was closed *)
+Definition d_beof (s : dstate) : bool := d_cdone s || negb (d_alive s).
+Definition d_ceof (s : dstate) : bool := d_bdone s || negb (d_alive s).
+
+Definition dstep (p : policy) (s : dstate) (e : dev) : dstate :=
   if d_alive s then
     match e with
-    | DC c => mkDst true (d_up s ++ c) (d_down s) (d_beof s) (d_ceof s)
-    | DB c => mkDst true (d_up s) (d_down s ++ c) (d_beof s) (d_ceof s)
-    | DCEof => if stop_on_c then mkDst false (d_up s) (d_down s) true true
-               else mkDst true (d_up s) (d_down s) true (d_ceof s)
-    | DBEof => if stop_on_b then mkDst false (d_up s) (d_down s) true true
-               else mkDst true (d_up s) (d_down s) (d_beof s) true
+    | DC c => mkDst true (d_up s ++ c) (d_down s) (d_cdone s) (d_bdone s)
+    | DB c => mkDst true (d_up s) (d_down s ++ c) (d_cdone s) (d_bdone s)
+    | DCEof => mkDst (negb (stops_now p true (d_bdone s))) (d_up s) (d_down s) true (d_bdone s)
+    | DBEof => mkDst (negb (stops_now p (d_cdone s) true)) (d_up s) (d_down s) (d_cdone s) true
     end
   else s.
 
 Definition dst0 : dstate := mkDst true [] [] false false.
-Definition duplex_run (stop_on_c stop_on_b : bool) (l : list dev) : dstate :=
-  fold_left (dstep stop_on_c stop_on_b) l dst0.
+Definition duplex_run (p : policy) (l : list dev) : dstate := fold_left (dstep p) l dst0.
 
-Definition copy_duplex := duplex_run false true.
-Definition ssh_duplex := duplex_run true true.
+Definition copy_duplex := duplex_run StopBoth.
+Definition ssh_duplex := duplex_run StopOnBackend.
 
 (* what was written in each direction, and the part of a schedule before the relay stops *)
 Definition ups (l : list dev) : bytes := flat_map (fun e => match e with DC c => c | _ => [] end) l.
 Definition downs (l : list dev) : bytes := flat_map (fun e => match e with DB c => c | _ => [] end) l.
-Definition stops (stop_on_c stop_on_b : bool) (e : dev) : bool :=
-  match e with DCEof => stop_on_c | DBEof => stop_on_b | _ => false end.
-Fixpoint before_stop (stop_on_c stop_on_b : bool) (l : list dev) : list dev :=
+
+Fixpoint until_stop (p : policy) (cdone bdone : bool) (l : list dev) : list dev :=
   match l with
   | [] => []
-  | e :: r => if stops stop_on_c stop_on_b e then [] else e :: before_stop stop_on_c stop_on_b r
+  | DCEof :: r => if stops_now p true bdone then [] else DCEof :: until_stop p true bdone r
+  | DBEof :: r => if stops_now p cdone true then [] else DBEof :: until_stop p cdone true r
+  | e :: r => e :: until_stop p cdone bdone r
+  end.
+
+(* a well-formed schedule: a side writes nothing after it has ended its own direction *)
+Fixpoint sched_ok (cdone bdone : bool) (l : list dev) : Prop :=
+  match l with
+  | [] => True
+  | DC _ :: r => cdone = false /\ sched_ok cdone bdone r
+  | DB _ :: r => bdone = false /\ sched_ok cdone bdone r
+  | DCEof :: r => cdone = false /\ sched_ok true bdone r
+  | DBEof :: r => bdone = false /\ sched_ok cdone true r
   end.
